@@ -334,6 +334,43 @@ func extractPushTx() {
 					after = true
 					// how the two sets are filled
 					body := src(c)
+					// the reject arm of the response handler: is a rejection only
+					// recorded for a peer already in `replies`, and is the peer's
+					// sub-query closed after a recorded rejection?
+					guard, rec, inc, cls := -1, -1, -1, -1
+					ast.Inspect(c, func(n ast.Node) bool {
+						cc, ok := n.(*ast.CaseClause)
+						if !ok || len(cc.List) != 1 || src(cc.List[0]) != "*wire.MsgReject" {
+							return true
+						}
+						for i, st := range cc.Body {
+							switch v := st.(type) {
+							case *ast.IfStmt:
+								if v.Init != nil && src(v.Init) == "_, ok := replies[sp.ID()]" && src(v.Cond) == "!ok" &&
+									v.Else == nil && len(v.Body.List) == 1 && src(v.Body.List[0]) == "return" && guard < 0 {
+									guard = i
+								}
+							case *ast.AssignStmt:
+								if src(v.Lhs[0]) == "rejections[sp.ID()]" && rec < 0 {
+									rec = i
+								}
+							case *ast.IncDecStmt:
+								if src(v.X) == "rejectCodes[broadcastErr.Code]" && inc < 0 {
+									inc = i
+								}
+							case *ast.ExprStmt:
+								if src(v.X) == "closer.closeNow()" && cls < 0 {
+									cls = i
+								}
+							}
+						}
+						return false
+					})
+					if rec < 0 || inc < 0 {
+						fail("query.go: sendTransaction: reject arm recording rejections[sp.ID()] and rejectCodes[...]++")
+					}
+					defs["rejectGuard"] = lbool(guard >= 0 && guard < rec && guard < inc && (cls < 0 || guard < cls))
+					defs["rejectCloses"] = lbool(cls >= 0 && cls > rec)
 					defs["repliesFill"] = lbool(strings.Contains(body, "replies[sp.ID()] = struct{}{}"))
 					defs["rejectionsFill"] = lbool(strings.Contains(body, "rejections[sp.ID()] = broadcastErr") &&
 						strings.Contains(body, "rejectCodes[broadcastErr.Code]++"))
@@ -358,6 +395,38 @@ func extractPushTx() {
 	l.def("mostRejectedCmp", "String", fmt.Sprintf("%q", mostCmp), "comparison inside the loop over rejectCodes")
 	l.def("repliesKeyedByPeer", "Bool", defs["repliesFill"]+"", "replies[sp.ID()] = struct{}{} on a getdata naming the tx")
 	l.def("rejectionsKeyedByPeer", "Bool", defs["rejectionsFill"]+"", "rejections[sp.ID()] = err; rejectCodes[err.Code]++ on a reject naming the tx")
+	l.def("rejectRequiresReply", "Bool", orFalse(defs["rejectGuard"]), "the reject arm returns before recording anything when the peer is not in `replies` (it never requested the tx)")
+	l.def("rejectClosesPeer", "Bool", orFalse(defs["rejectCloses"]), "after a recorded rejection the peer's sub-query is closed (closer.closeNow())")
+	// queryAllPeers: messages of a peer whose sub-query is closed are not handed to the handler
+	skip := false
+	if fd := funcDecl(qf, "ChainService", "queryAllPeers"); fd == nil {
+		fail("query.go: method ChainService.queryAllPeers")
+	} else {
+		ast.Inspect(fd.Body, func(n ast.Node) bool {
+			sel, ok := n.(*ast.SelectStmt)
+			if !ok {
+				return true
+			}
+			closedCase, dfltCalls := false, false
+			for _, c := range sel.Body.List {
+				cc := c.(*ast.CommClause)
+				if cc.Comm == nil {
+					for _, st := range cc.Body {
+						if strings.HasPrefix(src(st), "checkResponse(") {
+							dfltCalls = true
+						}
+					}
+				} else if src(cc.Comm) == "<-peerQuits[sm.sp.Addr()]" && len(cc.Body) == 0 {
+					closedCase = true
+				}
+			}
+			if closedCase && dfltCalls {
+				skip = true
+			}
+			return true
+		})
+	}
+	l.def("closedPeerSkipped", "Bool", lbool(skip), "queryAllPeers drops messages of a peer whose peerQuit is closed instead of calling the handler")
 	// default threshold literal
 	num, den := 0, 0
 	if qf != nil {
@@ -388,6 +457,13 @@ func extractPushTx() {
 	l.def("thresholdDen", "Nat", strconv.Itoa(den), "")
 	out["verdictPaths"], out["thresholdOp"], out["threshold"] = jpaths, thrOp, []int{num, den}
 	facts["pushtx"] = out
+}
+
+func orFalse(s string) string {
+	if s == "" {
+		return "false"
+	}
+	return s
 }
 
 func base(s string) string {
